@@ -253,6 +253,10 @@ prop("C19", "exploration",
 
 
 # ------------------------------------------------------------------------------------------ C08
+C08_MEMCHECK_JOBS = [dict(name="c08m_d", sources=["c08_qr.cpp"], flavour="memcheck", flags=["-DC08_T=double"])]
+C09_MEMCHECK_JOBS = [dict(name="c09m_d", sources=["c09_eig.cpp"], flavour="memcheck", flags=["-DC09_T=double"])]
+C10_MEMCHECK_JOBS = [dict(name="c10m_d", sources=["c10_bkldlt.cpp"], flavour="memcheck", flags=["-DC10_T=double"]),
+                     dict(name="c10m_cd", sources=["c10_bkldlt.cpp"], flavour="memcheck", flags=["-DC10_T=std::complex<double>", "-DC10_COMPLEX"])]
 prop("C08", "exploration",
      "UpperHessenbergQR / TridiagQR / DoubleShiftQR called directly on generated matrices: sizes 2..40 (60% of them <= 8), nine entry patterns "
      "(random, small integers with every zero/non-zero subdiagonal mask for n <= 8, graded over 16 decades, deflated blocks, negligible subdiagonals, "
@@ -261,7 +265,8 @@ prop("C08", "exploration",
      [dict(name="c08_qr_d", sources=["c08_qr.cpp"], flavour="asan", flags=["-DC08_T=double"]),
       dict(name="c08_qr_f", sources=["c08_qr.cpp"], flavour="asan", flags=["-DC08_T=float"]),
       dict(name="c08_qr_ld", sources=["c08_qr.cpp"], flavour="asan", flags=["-DC08_T=long double"])],
-     assumptions=TRUST + ["identities are judged in long double with allowance 64*n*eps*(||H||_F+|s|sqrt(n)); for long double inputs the oracle's own rounding is inside that margin"])
+     assumptions=TRUST + ["identities are judged in long double with allowance 64*n*eps*(||H||_F+|s|sqrt(n)); for long double inputs the oracle's own rounding is inside that margin"],
+     extra_jobs=C08_MEMCHECK_JOBS, extras=[dict(name="c08_memcheck_monitor", fn=memcheck_monitor(C08_MEMCHECK_JOBS, 800, 8000))])
 
 
 # ------------------------------------------------------------------------------------------ C09
@@ -274,7 +279,8 @@ prop("C09", "exploration",
       dict(name="c09_eig_f", sources=["c09_eig.cpp"], flavour="asan", flags=["-DC09_T=float"]),
       dict(name="c09_eig_ld", sources=["c09_eig.cpp"], flavour="asan", flags=["-DC09_T=long double"])],
      assumptions=TRUST + ["identities judged in long double with allowance 64*n*eps*||.||_F; the spectrum as a multiset is judged through the power sums "
-                          "sum(lambda) = tr(H), sum(lambda^2) = tr(H^2) at backward-error level, so no conditioning assumption is needed"])
+                          "sum(lambda) = tr(H), sum(lambda^2) = tr(H^2) at backward-error level, so no conditioning assumption is needed"],
+     extra_jobs=C09_MEMCHECK_JOBS, extras=[dict(name="c09_memcheck_monitor", fn=memcheck_monitor(C09_MEMCHECK_JOBS, 600, 6000))])
 
 
 # ------------------------------------------------------------------------------------------ C10
@@ -289,7 +295,8 @@ prop("C10", "exploration",
       dict(name="c10_ld", sources=["c10_bkldlt.cpp"], flavour="asan", flags=["-DC10_T=long double"]),
       dict(name="c10_cd", sources=["c10_bkldlt.cpp"], flavour="asan", flags=["-DC10_T=std::complex<double>", "-DC10_COMPLEX"])],
      assumptions=TRUST + ["'nonsingular' is decided by a long-double full-pivoting LU of A - sigma I (smallest pivot > 1e3*n*eps*largest); inputs failing that are skipped, not judged",
-                          "residual allowance 64*n*eps*(||A-sigma I||_F ||x|| + ||b||)"])
+                          "residual allowance 64*n*eps*(||A-sigma I||_F ||x|| + ||b||)"],
+     extra_jobs=C10_MEMCHECK_JOBS, extras=[dict(name="c10_memcheck_monitor", fn=memcheck_monitor(C10_MEMCHECK_JOBS, 500, 5000))])
 
 
 # ------------------------------------------------------------------------------------------ C01
